@@ -27,4 +27,63 @@ pub fn run(repo: &str, t: &mut T) {
     let c: [u8; 16] = [0x69, 0xc4, 0xe0, 0xd8, 0x6a, 0x7b, 0x04, 0x30, 0xd8, 0xcd, 0xb7, 0x80, 0x70, 0xb4, 0xc5, 0x5a];
     t.check("aes fips-197 C.1", aes::encrypt(&k, &p) == c && aes::decrypt(&k, &c) == p);
     t.check("aes sbox[0x53]==0xed", aes::sbox(0x53) == 0xed && aes::inv_sbox(0xed) == 0x53);
+    ni_models(t);
+}
+
+/// The concrete meaning given to the AES-NI intrinsics by /verif/harness/aes/ni_model.rs (AESENC = round_core ^ key, ...)
+/// checked against the real instructions of this host on structured and pseudo-random inputs (VERIF_SEED).
+#[cfg(target_arch = "x86_64")]
+fn ni_models(t: &mut T) {
+    use core::arch::x86_64::*;
+    use refmodels::aes as ra;
+    if !std::is_x86_feature_detected!("aes") {
+        println!("oracle aes-ni models            SKIPPED (no AES-NI on this host)");
+        return;
+    }
+    fn to(x: [u8; 16]) -> __m128i { unsafe { core::mem::transmute(x) } }
+    fn from(x: __m128i) -> [u8; 16] { unsafe { core::mem::transmute(x) } }
+    let mut seed: u64 = std::env::var("VERIF_SEED").ok().and_then(|s| s.parse().ok()).unwrap_or(0) ^ 0x9E3779B97F4A7C15;
+    let mut next = move || { seed ^= seed << 13; seed ^= seed >> 7; seed ^= seed << 17; seed };
+    let mut inputs: Vec<([u8; 16], [u8; 16])> = Vec::new();
+    for i in 0..=255u8 {
+        inputs.push(([i; 16], [0; 16]));
+        let mut a = [0u8; 16];
+        a[(i % 16) as usize] = i;
+        inputs.push((a, [i.wrapping_mul(7); 16]));
+    }
+    for _ in 0..4096 {
+        let (a, b, c, d) = (next(), next(), next(), next());
+        let mut x = [0u8; 16];
+        let mut k = [0u8; 16];
+        x[..8].copy_from_slice(&a.to_le_bytes());
+        x[8..].copy_from_slice(&b.to_le_bytes());
+        k[..8].copy_from_slice(&c.to_le_bytes());
+        k[8..].copy_from_slice(&d.to_le_bytes());
+        inputs.push((x, k));
+    }
+    let mut bad = 0usize;
+    for (x, k) in &inputs {
+        unsafe {
+            if from(_mm_aesenc_si128(to(*x), to(*k))) != ra::xor(&ra::round_core(x), k) { bad += 1; }
+            if from(_mm_aesenclast_si128(to(*x), to(*k))) != ra::xor(&ra::last_core(x), k) { bad += 1; }
+            if from(_mm_aesdec_si128(to(*x), to(*k))) != ra::xor(&ra::inv_round_core(x), k) { bad += 1; }
+            if from(_mm_aesdeclast_si128(to(*x), to(*k))) != ra::xor(&ra::inv_last_core(x), k) { bad += 1; }
+            if from(_mm_aesimc_si128(to(*x))) != ra::inv_mix_columns(x) { bad += 1; }
+            // AESKEYGENASSIST with rcon 0x1b: [SubWord(X1), RotWord(SubWord(X1)) ^ rcon, SubWord(X3), RotWord(SubWord(X3)) ^ rcon]
+            let g = from(_mm_aeskeygenassist_si128::<0x1b>(to(*x)));
+            let sw = |w: [u8; 4]| [ra::sbox(w[0]), ra::sbox(w[1]), ra::sbox(w[2]), ra::sbox(w[3])];
+            let x1 = u32::from_le_bytes(sw([x[4], x[5], x[6], x[7]]));
+            let x3 = u32::from_le_bytes(sw([x[12], x[13], x[14], x[15]]));
+            let exp = [x1, x1.rotate_right(8) ^ 0x1b, x3, x3.rotate_right(8) ^ 0x1b];
+            for i in 0..4 {
+                if g[4 * i..4 * i + 4] != exp[i].to_le_bytes() { bad += 1; }
+            }
+        }
+    }
+    t.total += inputs.len();
+    t.fails += bad;
+    println!("oracle aes-ni intrinsic models  real AESENC/AESENCLAST/AESDEC/AESDECLAST/AESIMC/AESKEYGENASSIST vs models: inputs={} mismatches={bad}", inputs.len());
+}
+#[cfg(not(target_arch = "x86_64"))]
+fn ni_models(_t: &mut T) {
 }
